@@ -276,6 +276,8 @@ class Listener:
                         lazymsg('refused connection from {name} due to the state machine', name=connection.name()),
                         'network',
                     )
+                    # denied is the generator writing the NOTIFICATION: it has to be run
+                    reactor.asynchronous.schedule(str(uuid.uuid1()), 'sending notification (refused)', denied)
                     break
                 log.debug(lazymsg('accepted connection from {name}', name=connection.name()), 'network')
                 break
@@ -321,6 +323,7 @@ class Listener:
                         lazymsg('refused connection from {name} due to the state machine', name=connection.name()),
                         'network',
                     )
+                    reactor.asynchronous.schedule(str(uuid.uuid1()), 'sending notification (refused)', denied)
                     return
 
                 reactor.register_peer(new_neighbor.name(), new_peer)
